@@ -50,9 +50,12 @@ void put_table(JW& out, const std::string& key, const Opm::SimpleTable& t) {
 } // namespace
 
 // {deck} -> SI values seen through EclipseState and Schedule
+namespace probe_units { Opm::Parser& shared_parser(bool reset); }      // cmd_units.cpp
+
 PROBE_CMD(units_model) {
     const std::string text = jstr(req, "deck");
-    Opm::Parser parser;
+    Opm::Parser local_parser;
+    Opm::Parser& parser = jbool(req, "shared_parser", false) ? probe_units::shared_parser(jbool(req, "reset_parser", false)) : local_parser;
     Opm::ParseContext ctx(Opm::InputErrorAction::THROW_EXCEPTION);
     Opm::ErrorGuard errors;
     struct Clear { Opm::ErrorGuard& g; ~Clear() { g.clear(); } } clear{errors};
